@@ -178,12 +178,19 @@ def cmpRel (k : CountKind) (a b : Term) : Fml :=
   | .max => .le a b
   | .min => .ge a b
 
-/-- formulas of one WorkLoad interval; `k0` = number of Overlap variables already used -/
+/-- the formulas and the Overlap variables for the busy intervals of one WorkLoad interval; `k` =
+    number of Overlap variables already used -/
+def workloadBusy (c : Nat) (lo hi : Int) : Nat → List BusyRef → List Fml × List Term
+  | _, [] => ([], [])
+  | k, b :: bs =>
+      let d := Term.var (.overlap c lo hi k)
+      let r := workloadBusy c lo hi (k + 1) bs
+      (workloadOne d b lo hi ++ r.1, d :: r.2)
+
+/-- formulas of one WorkLoad interval -/
 def workloadInterval (c : Nat) (k0 : Nat) (busy : List BusyRef) (iv : (Int × Int) × Int) (kind : CountKind) : List Fml :=
-  let lo := iv.1.1
-  let hi := iv.1.2
-  let durs := (List.range busy.length).map (fun j => Term.var (.overlap c lo hi (k0 + j)))
-  ((busy.zip durs).flatMap (fun (b, d) => workloadOne d b lo hi)) ++ [cmpRel kind (.sum durs) (numT iv.2)]
+  let r := workloadBusy c iv.1.1 iv.1.2 k0 busy
+  r.1 ++ [cmpRel kind (.sum r.2) (numT iv.2)]
 
 def workloadAll (c : Nat) (busy : List BusyRef) (kind : CountKind) : Nat → List ((Int × Int) × Int) → List Fml
   | _, [] => []
@@ -194,6 +201,37 @@ def orOperand (o : List Fml) : Fml :=
   match o with
   | [a] => a
   | _ => .and o
+
+/-- ResourceTasksDistance: the conditions under which a gap is constrained -/
+def distConds (intervals : Option (List (Int × Int))) (e s : Term) : List Fml :=
+  match intervals with
+  | some ivs => ivs.map (fun iv => Fml.and [.ge s (numT iv.1), .ge e (numT iv.1), .le s (numT iv.2), .le e (numT iv.2)])
+  | none => [Fml.and [.ge e (numT 0), .ge s (numT 0)]]
+
+/-- ResourceTasksDistance: the formula for one gap `(previous end, next start)` -/
+def distanceGap (d : Int) (intervals : Option (List (Int × Int))) (mode : CountKind) (p : Term × Term) : Fml :=
+  .imp (.or (distConds intervals p.1 p.2)) (cmpRel mode (.sub p.2 p.1) (numT d))
+
+/-- ResourceInterrupted: the conjuncts contributed by one busy interval -/
+def interruptedOne (b : BusyRef) (t : Task) (ivs : List (Int × Int)) : List Fml :=
+  let s := b.s
+  let e := b.e
+  match t.kind with
+  | .var minD maxD _ =>
+      let overlaps := ivs.map (fun iv =>
+        Term.ite (.not (.xor (.ge s (numT iv.2)) (.le e (numT iv.1)))) (numT (iv.2 - iv.1)) (numT 0))
+      ivs.flatMap (fun iv => [Fml.xor (.le s (numT iv.1)) (.ge s (numT iv.2)), Fml.xor (.le e (numT iv.1)) (.ge e (numT iv.2))]) ++
+      [Fml.ge t.dVar (.add (numT minD) (.sum overlaps))] ++
+      (match maxD with | some m => [Fml.le t.dVar (.add (numT m) (.sum overlaps))] | none => [])
+  | _ => ivs.map (fun iv => Fml.xor (.ge s (numT iv.2)) (.le e (numT iv.1)))
+
+/-- ResourcePeriodicallyUnavailable: the formula for one busy interval and one interval of the period -/
+def periodicOne (b : BusyRef) (iv : Int × Int) (period start offset : Int) (end_ : Option Int) : Fml :=
+  let folded := Term.mod (.sub b.s (numT offset)) (numT period)
+  let core := Fml.xor (.ge folded (numT iv.2)) (.le (.add folded (.sub b.e b.s)) (numT iv.1))
+  let conds := [core] ++ (if start > 0 then [Fml.le b.e (numT start)] else []) ++
+               (match end_ with | some en => [Fml.ge b.s (numT en)] | none => [])
+  if conds.length > 1 then .or conds else core
 
 /-- the formulas handed, one by one, to `set_z3_assertions` (or appended directly) by the
     constructor of a constraint, before the optional-constraint wrapper -/
@@ -251,12 +289,10 @@ def CBody.raw (c : Nat) : CBody → List Fml
       let n := busy.length
       let (ss, c1) := sortNoDup (fun i => .fresh c i) (busy.map (·.s))
       let (se, c2) := sortNoDup (fun i => .fresh c (n + i)) (busy.map (·.e))
-      c1 ++ c2 ++ (gapPairs ss se).map (fun (e, s) =>
-        let asst := cmpRel mode (.sub s e) (numT d)
-        let conds := match intervals with
-          | some ivs => ivs.map (fun iv => Fml.and [.ge s (numT iv.1), .ge e (numT iv.1), .le s (numT iv.2), .le e (numT iv.2)])
-          | none => [Fml.and [.ge e (numT 0), .ge s (numT 0)]]
-        Fml.imp (.or conds) asst)
+      c1 ++ c2 ++ (gapPairs ss se).map (fun p => distanceGap d intervals mode p)
+  | .interrupted ws ivs => ws.map (fun w => Fml.and (w.flatMap (fun (b, t) => interruptedOne b t ivs)))
+  | .periodicallyUnavailable busy ivs period start offset end_ =>
+      ivs.flatMap (fun iv => busy.map (fun b => periodicOne b iv period start offset end_))
   | .sameWorkers s1 s2 =>
       (s1.workers.filter (fun w => s2.workers.contains w)).map (fun w =>
         Fml.iff (.bvar (.sel s1.id w)) (.bvar (.sel s2.id w)))
